@@ -17,7 +17,7 @@ import os
 import re
 import shutil
 
-from mc import seams
+from mc import refs, seams
 from mc.runner import Part, Res
 from props import secdom
 
@@ -60,6 +60,9 @@ ALPHABET = [
     ("hostname seattle-core", {"word": [1]}),
     ("router bgp 65001", {"as": [2]}),
     (" neighbor 10.9.8.7 remote-as 65001 description SEATTLE peer", {"ip": [1], "as": [3], "word": [5]}),
+    # a secret whose clear text is a reserved word, and that reserved word as a value elsewhere (left alone)
+    ('set system y secret "%s"' % refs.j9_encode("private", "Q"), {"pwd": [4], "wrap": {4: ('"', '"')}}),
+    ("snmp-server community private RW", {}),
     # inner whitespace runs on lines that do hold an item: kept exactly unless secrets or words are on
     ("router  bgp\t65001", {"as": [2]}),
     ("\tneighbor 10.9.8.7   remote-as  65001\t\tdescription   far  end ", {"ip": [1], "as": [3]}),
